@@ -144,16 +144,16 @@ type foreignCase struct {
 }
 
 var foreignFaults = []struct{ name, content string }{
-	{"f.yaml", "foo: bar\n"},                                     // neither swagger nor openapi signature
-	{"f.yaml", "openapi: \"3.0.0\"\ninfo: [\n"},                  // malformed yaml
-	{"f.yaml", "swagger: \"2.0\"\npaths: 17\n"},                  // swagger the importer rejects
-	{"f.json", "{ not json"},                                     // not JSON
-	{"f.json", "{\"openapi\": \"3.0.0\", \"paths\": 17}"},        // openapi the importer rejects
-	{"f.pb", "\x00\xff\xfe garbage"},                             // binary garbage
-	{"f.textpb", "apps { this is not textpb"},                    // bad textpb
-	{"f.pb.json", "{\"apps\": 17}"},                              // bad pb json
-	{"f.proto", "message {{{"},                                   // bad proto
-	{"f.xml", "<a>"},                                             // unknown extension
+	{"f.yaml", "foo: bar\n"},                              // neither swagger nor openapi signature
+	{"f.yaml", "openapi: \"3.0.0\"\ninfo: [\n"},           // malformed yaml
+	{"f.yaml", "swagger: \"2.0\"\npaths: 17\n"},           // swagger the importer rejects
+	{"f.json", "{ not json"},                              // not JSON
+	{"f.json", "{\"openapi\": \"3.0.0\", \"paths\": 17}"}, // openapi the importer rejects
+	{"f.pb", "\x00\xff\xfe garbage"},                      // binary garbage
+	{"f.textpb", "apps { this is not textpb"},             // bad textpb
+	{"f.pb.json", "{\"apps\": 17}"},                       // bad pb json
+	{"f.proto", "message {{{"},                            // bad proto
+	{"f.xml", "<a>"},                                      // unknown extension
 }
 
 func (c06) Run(c core.Case) core.Outcome {
